@@ -2,6 +2,15 @@ use super::*;
 
 use crate::socket::tcp::Socket;
 
+fn is_loopback(addr: &IpAddress) -> bool {
+    match addr {
+        #[cfg(feature = "proto-ipv4")]
+        IpAddress::Ipv4(a) => a.is_loopback(),
+        #[cfg(feature = "proto-ipv6")]
+        IpAddress::Ipv6(a) => a.is_loopback(),
+    }
+}
+
 impl InterfaceInner {
     pub(crate) fn process_tcp<'frame>(
         &mut self,
@@ -18,6 +27,18 @@ impl InterfaceInner {
         // This is not done at the iface level because it might be useful with
         // UDP or raw sockets, but it's definitely not useful for TCP.
         if src_addr.is_unspecified() || dst_addr.is_unspecified() {
+            return None;
+        }
+
+        // TCP is unicast only (RFC 1122 4.2.3.10): a segment sent to a broadcast or multicast
+        // address, or to the loopback address but arriving from the network, must be silently
+        // discarded - neither handed to a socket (a listener would otherwise be torn down by
+        // it) nor answered with a reset sourced from that address.
+        if dst_addr.is_multicast()
+            || self.is_broadcast(&dst_addr)
+            || (is_loopback(&dst_addr) && !self.has_ip_addr(dst_addr))
+        {
+            net_debug!("TCP segment to non-unicast address {}, dropping", dst_addr);
             return None;
         }
 
